@@ -826,6 +826,23 @@ def scenario(name: str, kind: str, tmp: str) -> tuple[bool, str]:
             second = len(b.new_launches())
         return (first, second) != (1, 0), (f"AND trigger on events `A` and `B`: one occurrence of each, loop -> {first} launch(es); the same two occurrences reported again "
                                            f"in the other order 5 s later, loop -> {second} more launch(es)")
+    if name == "many-unconsumable-occurrences-pending":
+        # 120 occurrences that cannot be consumed yet (one side of an AND trigger) are pending when an ordinary event arrives and the
+        # AND is completed: both launch, nothing is starved by the backlog
+        b = _single(kind, tmp, "mu", [CondSpec("event", code="e"), CondSpec("event", code="x"), CondSpec("event", code="y")],
+                    [TrigSpec("target", [0], "or", ["c:event"]), TrigSpec("target2", [1, 2], "and", [])])
+        o = Occurrences(b)
+        with VirtualClock(T0) as clk:
+            for j in range(120):
+                o.event("x", str(j))
+            b.app.trigger.trigger_loop_iteration()
+            o.event("e", "1"); o.event("y", "1")
+            for _ in range(5):
+                clk.advance(2 * US_SEC)
+                b.app.trigger.trigger_loop_iteration()
+            per = Counter(x[0].split(".")[-1] for x in b.launches())
+        return (per.get("target", 0) != 1 or per.get("target2", 0) < 1), (f"120 `x` events pending for a trigger on `x` AND `y`; then `e` (own trigger) and `y` arrive; after five iterations the launches are "
+                                                                            f"{dict(per)} (trigger on `e`: 1 expected; trigger on `x` AND `y`: at least 1), {len(b.valid_ids())} occurrences pending")
     if name == "occurrence-reported-during-iteration":
         # an occurrence is reported WHILE a loop iteration runs - right before its k-th access to the trigger store, every k:
         # it is launched by that iteration or a later one, never deleted unevaluated
@@ -922,6 +939,7 @@ SCENARIOS = {
     "kept-occurrence-rejoins-context": "launched-occurrence-rejoins-context:occurrence-kept-for-unready-trigger",
     "and-occurrences-redelivered-in-other-order": "and-run-identity-depends-on-delivery-order",
     "occurrence-reported-during-iteration": "occurrence-reported-during-iteration-is-dropped",
+    "many-unconsumable-occurrences-pending": "backlog-of-unconsumable-occurrences-starves-the-loop",
     "same-exception-type-two-invocations": "exception-occurrence-identity-ignores-invocation",
     "cron-first-poll-off-schedule": "cron-first-poll-fires-off-schedule",
     "cron-short-window": "cron-window-shorter-than-a-minute-ignored",
@@ -1007,6 +1025,58 @@ def loop_faults(ctx: Ctx) -> None:
                                f"(the iteration {'raised ' + raised if raised else 'returned normally'}); after three more iterations within the claim lifetime and two after it: {got} launch(es) "
                                f"instead of {want}, {left} occurrence(s) still pending",
                                {"family": "loop-fault", "backend": kind, "logic": logic, "fault_at_access": k, "operation": op})
+    # ---- two cron conditions due in the SAME poll, a fault at the k-th store access of that iteration; later polls fall into the same
+    #      check window: every tick launches its task once
+    for kind in ("mem", "sqlite"):
+        for k in range(0, 40):
+            cfgc = CronCfg(window=120, min_interval=50, tolerance=30, strict=False)
+            b = _single(kind, ctx.tmp, f"lfc{k}", [CondSpec("cron", fields="* * * * *".split(), cfg=cfgc), CondSpec("cron", fields="*/2 * * * *".split(), cfg=cfgc)],
+                        [TrigSpec("target", [0], "and", []), TrigSpec("target2", [1], "and", [])])
+            trig = b.app.trigger
+            n = {"ops": 0, "done": None}
+            saved = {}
+            with VirtualClock(T0 + 5 * US_SEC) as clk:       # T0 is the start of an even minute: both schedules tick
+                def wrapc(opname):  # type: ignore[no-untyped-def]
+                    real = getattr(trig, opname)
+
+                    def f(*a, **kw):  # type: ignore[no-untyped-def]
+                        if n["ops"] == k and n["done"] is None:
+                            n["done"] = opname
+                            n["ops"] += 1
+                            raise sqlite3.OperationalError("database is locked")
+                        n["ops"] += 1
+                        return real(*a, **kw)
+                    saved[opname] = real
+                    setattr(trig, opname, f)
+
+                for opname in STORE_OPS:
+                    if hasattr(trig, opname):
+                        wrapc(opname)
+                raised = None
+                try:
+                    trig.trigger_loop_iteration()
+                except Exception as e:  # noqa: BLE001
+                    raised = type(e).__name__
+                finally:
+                    for opname in saved:
+                        delattr(trig, opname)
+                if n["done"] is None:
+                    break
+                for _ in range(3):
+                    clk.advance(10 * US_SEC)
+                    trig.trigger_loop_iteration()
+                per = Counter(x[0].split(".")[-1] for x in b.launches())
+            ctx.count()
+            ctx.distinct(("loop-fault-cron", kind, n["done"], k))
+            op = n["done"]
+            bad_t = [t for t in ("target", "target2") if per.get(t, 0) != 1]
+            res[f"cron:{op}:{'ok' if not bad_t else 'bad'}"] += 1
+            if bad_t and op != "execute_task":
+                what = "occurrence-lost" if per.get(bad_t[0], 0) == 0 else "launched-twice"
+                ctx.report(f"loop-fault:cron:{op}:{what}",
+                           f"{kind}: two cron triggers ('* * * * *', '*/2 * * * *') tick in the same poll; store access #{k} of that iteration ({op}) fails with 'database is locked' "
+                           f"(the iteration {'raised ' + raised if raised else 'returned'}); after three more polls inside the check window the launches are {dict(per)} (one each expected)",
+                           {"family": "loop-fault-cron", "backend": kind, "fault_at_access": k, "operation": op})
     ctx.notes["loop_faults"] = dict(res)
 
 
